@@ -82,7 +82,26 @@ func (g *Gen) ref() string {
 	return fixedRefs[g.r.Intn(len(fixedRefs))]
 }
 
+var braceRepl = strings.NewReplacer("{", "(", "}", ")", "&lbrace;", "(", "&lcub;", "(", "&rbrace;", ")", "&rcub;", ")", "&#123;", "(", "&#x7b;", "(", "&#x7B;", "(", "&#X7B;", "(", "&#X7b;", "(", "&#125;", ")", "&#x7d;", ")", "&#x7D;", ")", "&#X7D;", ")", "&#X7d;", ")")
+
+// noBrace: documents that may be minified with TemplateDelims must not contain stray "{{" / "}}"
+// (neither literally nor after reference decoding, because of the second pass).
+func (g *Gen) noBrace(s string) string {
+	if !g.tmpl {
+		return s
+	}
+	return braceRepl.Replace(s)
+}
+
 func (g *Gen) word() string {
+	w := g.word0()
+	if g.tmpl && !strings.HasPrefix(w, "{{") {
+		w = g.noBrace(w)
+	}
+	return w
+}
+
+func (g *Gen) word0() string {
 	if g.Known && g.r.Chance(1, 40) {
 		return k18Shapes[g.r.Intn(len(k18Shapes))]
 	}
@@ -105,6 +124,9 @@ func (g *Gen) ws() string {
 
 // text produces running text with the given probability (in 8ths) of whitespace at either edge.
 func (g *Gen) text(lead, trail int) string {
+	if g.Known && g.r.Chance(1, 30) {
+		return k18Shapes[g.r.Intn(len(k18Shapes))] // bypasses fixAmp on purpose
+	}
 	var sb strings.Builder
 	if g.r.Chance(lead, 8) {
 		sb.WriteString(g.ws())
@@ -1226,8 +1248,14 @@ func (g *Gen) encodeVal(v string) (string, byte) {
 	return sb.String(), quote
 }
 
+func (g *Gen) plainAttr(name, val string) Attr {
+	return Attr{Name: name, Val: val, Quote: '"'}
+}
+
 func (g *Gen) mkAttr(name, logical string) Attr {
+	logical = g.noBrace(logical)
 	v, q := g.encodeVal(logical)
+	v = g.noBrace(v)
 	a := Attr{Name: name, Val: v, Quote: q}
 	if g.r.Chance(1, 10) {
 		a.Name = strings.ToUpper(name[:1]) + name[1:]
@@ -1235,7 +1263,7 @@ func (g *Gen) mkAttr(name, logical string) Attr {
 	if g.r.Chance(1, 16) {
 		a.SpEq = true
 	}
-	if g.tmpl && g.r.Chance(1, 10) && q != 0 && name != "type" && name != "http-equiv" && name != "name" {
+	if g.tmpl && g.r.Chance(1, 10) && q != 0 && name != "type" && name != "http-equiv" && name != "name" && (name != "content" || g.Known) {
 		other := "'"
 		if q == '\'' {
 			other = "\""
@@ -1671,7 +1699,12 @@ func (g *Gen) meta() *Node {
 	case 1:
 		m.Attrs = []Attr{g.mkAttr("http-equiv", g.r.Pick("content-type", "Content-Type", " content-type ")), g.mkAttr("content", g.r.Pick("text/html; charset=utf-8", "text/html;charset=UTF-8", "text/html; charset=iso-8859-1", "Text/HTML ; Charset=utf-8"))}
 	case 2:
-		m.Attrs = []Attr{g.mkAttr("name", g.r.Pick("viewport", "Viewport", " viewport")), g.mkAttr("content", g.r.Pick("width=device-width, initial-scale=1.0", "width=device-width,initial-scale=1", "initial-scale=0.50, maximum-scale=2.00", "width = 320"))}
+		vp := g.r.Pick("width=device-width, initial-scale=1.0", "width=device-width,initial-scale=1", "initial-scale=0.50, maximum-scale=2.00", "width = 320")
+		if g.Known { // N11: digits written as character references
+			m.Attrs = []Attr{g.mkAttr("name", g.r.Pick("viewport", "Viewport", " viewport")), g.mkAttr("content", vp)}
+		} else {
+			m.Attrs = []Attr{g.mkAttr("name", g.r.Pick("viewport", "Viewport", " viewport")), g.plainAttr("content", vp)}
+		}
 	case 3:
 		m.Attrs = []Attr{g.mkAttr("name", g.r.Pick("keywords", "Keywords")), g.mkAttr("content", g.r.Pick("a, b, c", "a,b", "x y, z  w", "a ,b"))}
 	case 4:
